@@ -162,6 +162,25 @@ def run_roundtrip(hist):
     except Exception as ex:
         return [(tag + " execution [%s]" % str(ex)[:80], False, "%s: %s" % (type(ex).__name__, ex), time.time() - t0)]
 
+def reserved_job():
+    """E1: functional contract of reservedFitsKeyword (fitsio.cpp, namespace stripped only) for EVERY string: true exactly for
+    the keys that start with one of the eight reserved prefixes.  strncmp is CBMC's library model; its loops are bounded by the
+    constant length arguments (unwinding 8 with unwinding assertions: complete)."""
+    rk = units.free_function("src/core/fitsio.cpp", "reservedFitsKeyword")
+    def starts(p): return "(" + " && ".join("key[%d] == '%s'" % (i, ch) for i, ch in enumerate(p)) + ")"
+    spec = " || ".join(starts(p) for p in RESERVED)
+    ct = ("#include <string.h>\n#include <stdbool.h>\n"
+          "bool reservedFitsKeyword(const char* key)\n"
+          "__CPROVER_requires(__CPROVER_is_fresh(key, 16))\n"
+          "__CPROVER_requires(key[15] == 0)\n"
+          "__CPROVER_assigns()\n"
+          "__CPROVER_ensures(__CPROVER_return_value == (%s))\n"
+          "__CPROVER_ensures(__CPROVER_return_value == false)   /* canary: must fail */\n;\n" % spec)
+    tu = ct + rk.text(None) + "void h_rk(void){ const char* k; reservedFitsKeyword(k); }\n"
+    return rk, vlib.Job("C16-reservedFitsKeyword", tu, "h_rk", enforce="reservedFitsKeyword", loop_contracts=False, cbmc_flags=["--unwind", "9"], expect_fail=[r"reservedFitsKeyword\.postcondition\.2$"],
+                        must_have=[r"reservedFitsKeyword\.postcondition\.1"], timeout=600, backend="cbmc-sat-contracts",
+                        note="every NUL-terminated key in a 16-byte object (the prefixes are at most 7 characters long: longer keys behave as their first 15 characters); strncmp = CBMC's model, loops bounded by its constant length argument")
+
 TPROG = None
 def api_instantiates():
     """the functions whose extracted text is executed must be the code a C++ user gets: instantiate each of them natively"""
@@ -222,6 +241,7 @@ def main():
                 rc, out, w = vlib.sh("ASAN_OPTIONS=detect_leaks=0 timeout -s KILL 120 %s %s %s 2>&1 | tail -30; exit ${PIPESTATUS[0]}" % (exe, ddir, " ".join(shlex.quote(t) for t in toks)), timeout=200)
                 rp = dict(replayed=(rc == 1 and "key stores differ" in out), input="replay_history <model disk> " + " ".join(toks)[:1500], observed=("exit %d\n" % rc) + out[-2500:], command="tools/replay/replay_history.cpp (real library + installed cfitsio: write_key / write_fits / read_fits, key stores compared)")
             rep.add_violation("C16-serialisation", o[0].replace(" ", "_")[:150], o[0][:300] + ": " + o[2], trace=o[2], replay=rp)
+    rkf, rkj = reserved_job(); vlib.run_jobs([rkj], 1); rep.add_jobs([rkj]); rep.functions.append(rkf.info())
     t1 = time.time(); ok, det, out = api_instantiates()
     rep.add_group("native C++ instantiation of the functions under contract (g++, ASan/UBSan smoke run)", 1, 1 if ok else 0, time.time() - t1, bounded="one program using write_key<int/double/string>, get_aux_value, read_key<int/string>, remove_key", name="C16-api-instantiates")
     if not ok: rep.add_violation("C16-api-instantiates", "write_key/get_aux_value/read_key/remove_key_instantiate_and_run", "the key-store API does not instantiate / run natively: " + det, trace=out[-3000:], replay=dict(replayed=True, input="c16_api.cpp (generated)", observed=out[-2500:]))
